@@ -23,7 +23,7 @@ func checkC10(h *History, vs []*opView) {
 	// expected upstream per token (tokens may be shared by several ops with
 	// the same name; collect all allowed upstreams for a token)
 	allowed := map[string]map[string]bool{}
-	lowerOf := map[string]refdns.Name{}
+	lowerOf := map[string][]refdns.Name{} // a token may be used by several operations with different names
 	for _, v := range vs {
 		if v.q == nil || v.o.Op.Raw != nil || len(v.q.Q) == 0 {
 			continue
@@ -34,7 +34,7 @@ func checkC10(h *History, vs []*opView) {
 		}
 		if v.supported && v.outcome.Kind == "forward" {
 			allowed[tok][v.outcome.Forward] = true
-			lowerOf[tok] = v.lower
+			lowerOf[tok] = append(lowerOf[tok], v.lower)
 		}
 	}
 	// every question a client sent that decodes at all (garbage included)
@@ -86,8 +86,16 @@ func checkC10(h *History, vs []*opView) {
 			if !q.Name.Equal(q.Name.Lower()) {
 				h.S.Fail("C10", "not-lowercased", "upstream %s got name %s (not lower-cased)", tag, q.Name)
 			}
-			if want := lowerOf[q.Token]; want != nil && !q.Name.Equal(want) {
-				h.S.Fail("C10", "name-changed", "upstream %s got name %s, client asked %s", tag, q.Name, want)
+			if want := lowerOf[q.Token]; len(want) > 0 {
+				found := false
+				for _, n := range want {
+					if q.Name.Equal(n) {
+						found = true
+					}
+				}
+				if !found {
+					h.S.Fail("C10", "name-changed", "upstream %s got name %s, clients asked %v", tag, q.Name, want)
+				}
 			}
 			if q.Bits&refdns.BitRD == 0 {
 				h.S.Fail("C10", "rd", "upstream %s got RD=0 for token %s", tag, q.Token)
